@@ -704,6 +704,13 @@ func (v Value) convert(t Type) (res Value) {
 			return String(string(rune(v.num)))
 		}
 		data := v.data()
+		if v.t.base() == TypeSlice && v.t.value() == TypeInt32 { // string(rs) for rs []rune: each element is a code point
+			r := make([]rune, len(data))
+			for k, v := range data {
+				r[k] = rune(v.num)
+			}
+			return String(string(r))
+		}
 		b := make([]byte, len(data))
 		for k, v := range data {
 			b[k] = byte(v.num)
@@ -728,6 +735,13 @@ func (v Value) convert(t Type) (res Value) {
 		case TypeSlice:
 			if v.t == TypeString && t.value() == TypeUint8 { // type B []byte; B("abc")
 				return v.convert(TypeSlice)
+			}
+			if v.t == TypeString && t.value() == TypeInt32 { // []rune(s): the code points of s
+				var s []Value
+				for _, r := range v.String() {
+					s = append(s, Int32(r))
+				}
+				return newSlice(TypeInt32, s)
 			}
 			fallthrough
 		case TypeMap, TypeFunc:
